@@ -18,6 +18,7 @@ Sources transcribed (statement by statement):
   src/taiko/difficulty/rhythm/data/*.rs                 SameRhythmHitObjectGrouping::new,
                                                         SamePatternsGroupedHitObjects::{group_interval, interval_ratio}
   src/taiko/difficulty/skills/color.rs                  the slice `objects[idx.saturating_sub(128)..=idx]`
+  src/taiko/difficulty/color/color_data.rs              previous_color_change, next_color_change
 
 Pointers (`RefCount<T>` / `Weak<T>`) are *positions* in the list that owns the pointee
 (`TaikoDifficultyObjects::objects`, the vector of mono streaks / alternating patterns / repeating
@@ -475,6 +476,48 @@ def patternEntries (rgs : List (RGroup T)) (pgs : List (List Nat)) : Option (Lis
 def colourWindow (st : Store T) (o : DObj T) : Option (Nat × Nat) :=
   if o.idx < st.objects.length then some (o.idx - 128, o.idx) else none
 
+/-! ## Evaluator-time lookups through the colour data -/
+
+/-- The mono streak an object's colour data points to (`color_data.mono_streak.upgrade()`), through the
+positions `process_and_assign` recorded (`repeating pattern`, `alternating.idx`, `mono.idx`); every
+index is checked. -/
+def monoOf (reps : List Rep) (c : ColourOf) : Option Mono := do
+  let rep ← reps[c.1]?
+  let alt ← rep[c.2.1]?
+  alt[c.2.2.1]?
+
+/-- `ColorData::previous_color_change`: `mono.first_hit_object()` then `previous_note(.., 0)`. -/
+def prevColourChange (st : Store T) (reps : List Rep) (c : ColourOf) : Option (Option (DObj T)) := do
+  let mono ← monoOf reps c
+  match mono.head? with
+  | none => some none
+  | some f =>
+    let fo ← st.objects[f]?
+    previousNote st fo 0
+
+/-- `ColorData::next_color_change`: `mono.last_hit_object()` then `next_note(.., 0)`. -/
+def nextColourChange (st : Store T) (reps : List Rep) (c : ColourOf) : Option (Option (DObj T)) := do
+  let mono ← monoOf reps c
+  match mono.getLast? with
+  | none => some none
+  | some l =>
+    let lo ← st.objects[l]?
+    nextNote st lo 0
+
+/-- Per object, the `idx` of what the evaluators look up: `previous_note(0)`, `next_note(0)`,
+`previous_mono(0)`, `previous_mono(1)`, `previous_color_change`, `next_color_change`. -/
+def lookupsOf (st : Store T) (reps : List Rep) (colour : List ColourOf) :
+    Option (List (List (Option Nat))) :=
+  st.objects.zipIdx.mapM fun (op : DObj T × Nat) => do
+    let c ← colour[op.2]?
+    let a ← previousNote st op.1 0
+    let b ← nextNote st op.1 0
+    let d ← previousMono st op.1 0
+    let e ← previousMono st op.1 1
+    let f ← prevColourChange st reps c
+    let g ← nextColourChange st reps c
+    some ([a, b, d, e, f, g].map fun x => x.map (·.idx))
+
 /-! ## Everything `create_difficulty_objects` builds -/
 
 structure Pre (T : Type) where
@@ -492,6 +535,8 @@ structure Pre (T : Type) where
   /-- per object position: `(rhythm group, pattern group)`; `none` for objects that are not notes -/
   rhythm : List (Option (Nat × Nat))
   windows : List (Nat × Nat)
+  /-- per object position: the evaluator-time lookups (`lookupsOf`) -/
+  lookups : List (List (Option Nat))
 
 /-- Colour preprocessing of a store. -/
 def colourOf (st : Store T) : Option (List Mono × List Alt × List Rep × List Nat × List ColourOf) := do
@@ -532,6 +577,7 @@ def preprocess (A : Arith T) (clock : T) (objs : List (Obj T)) : Option (Pre T) 
   let (monos, alts, reps, ivs, colour) ← colourOf st
   let (rgs, pgs, pgi, pgr, rhythm) ← rhythmOf A st
   let windows ← st.objects.mapM (colourWindow st)
-  some ⟨st, monos, alts, reps, ivs, colour, rgs, pgs, pgi, pgr, rhythm, windows⟩
+  let lookups ← lookupsOf st reps colour
+  some ⟨st, monos, alts, reps, ivs, colour, rgs, pgs, pgi, pgr, rhythm, windows, lookups⟩
 
 end Rosu.TaikoPre
